@@ -52,6 +52,14 @@ def satMul (a b : Nat) : Nat := if a * b < 2 ^ 64 then a * b else 2 ^ 64 - 1
 def checkedMul (a b : Nat) : Option Nat := if a * b < 2 ^ 64 then some (a * b) else none
 def checkedAdd (a b : Nat) : Option Nat := if a + b < 2 ^ 64 then some (a + b) else none
 
+/-- `FixedBitSet::put(i)`: the previous bit and the set with bit `i` on; `none` = out of bounds (panic) -/
+def bitPut (bs : List Bool) (i : Nat) : Option (Bool × List Bool) :=
+  match bs[i]? with
+  | none => none
+  | some b => some (b, bs.set i true)
+/-- `C::checked_add` against the maximum of the counter type -/
+def checkedAddMax (cmax a b : Nat) : Option Nat := if a + b ≤ cmax then some (a + b) else none
+
 end KOps
 
 /-- Control flow of a translated function body (tools/rustflow.py): it returned `r`, fell through with the
